@@ -52,7 +52,7 @@ class _canary_new:
     """falsified: claims the length of an aware interval is the wall-clock difference"""
     from contracts.interval import _new_cases
 
-    _c = _new_cases()["same_zone"]
+    _c = _new_cases()["two_zones"]
     args = _c.args
     requires = _new_base.requires
 
